@@ -18,7 +18,10 @@ control-dependent on the determinants of *both SVD factors* modifies a value
 that reaches (def-use) the returned rotation and, with with_scale=True, the
 returned scale (Umeyama eq. 42 uses tr(D S)). Deleting the fix, keying it on
 something else, or applying it to the rotation but not to the scale trace is
-reported.
+reported. C03.5 (numerical-stability lint): the covariance fed to the SVD is
+built from centred points; the one-pass form E[y x^T] - mean_y mean_x^T
+cancels catastrophically for large common offsets, which the property's
+quantifier includes.
 """
 UNDECIDED = [
     "least-squares optimality of the returned transform",
@@ -44,7 +47,7 @@ MANIFEST = dict(
     technique="dominance via live-condition folding + constant propagation "
               "+ def-use reachability on provenance terms",
 )
-FLOORS = {"C03.1": 1, "C03.2": 1, "C03.3": 1, "C03.4": 3}
+FLOORS = {"C03.1": 1, "C03.2": 1, "C03.3": 1, "C03.4": 3, "C03.5": 1}
 FN = "evo.core.geometry.umeyama_alignment"
 
 
@@ -121,6 +124,55 @@ def check(ctx):
                    if ok else
                    f"with_scale=False: returned scale is {fmt(ret.args[2])}",
                    key="C03.3:unit-scale", value=fmt(ret.args[2]))
+        # --------------------------------------------------------- C03.5
+        if ws:
+            cov = svd[0].data["args"][0] if svd[0].data["args"] else None
+            prods = []
+            for t_ in (cov.walk() if cov is not None else []):
+                if t_.op == "call" and tm.callee_name(t_) in (
+                        "numpy.outer", "numpy.dot", "numpy.matmul",
+                        "numpy.einsum", ".dot") or (
+                        t_.op == "binop" and t_.args[0] == "MatMult"):
+                    ops_ = list(t_.args[1]) if t_.op == "call" else \
+                        [t_.args[1], t_.args[2]]
+                    if t_.op == "call" and tm.callee_name(t_) == ".dot":
+                        ops_.append(tm.method_recv(t_))
+                    ops_ = [o for o in ops_ if isinstance(o, T) and (
+                        tm.mentions_param(o, "x") or
+                        tm.mentions_param(o, "y"))]
+                    if ops_:
+                        prods.append((t_, ops_))
+
+            def centred(o: T) -> bool:
+                if any(is_call_to(z, ".mean", "numpy.mean") for z in o.walk()) \
+                        and not any(z.op == "binop" and z.args[0] == "Sub"
+                                    for z in o.walk()):
+                    return True        # a mean itself
+                for z in o.walk():
+                    if z.op == "binop" and z.args[0] == "Sub" and any(
+                            is_call_to(w, ".mean", "numpy.mean")
+                            for w in z.args[2].walk()) and (
+                            tm.mentions_param(z.args[1], "x") or
+                            tm.mentions_param(z.args[1], "y")):
+                        return True
+                return False
+            if not prods:
+                ctx.undecidable("C03.5", f, f"covariance construction not "
+                                f"recognised: {fmt(cov)}")
+            else:
+                raw = [(t_, o) for t_, ops_ in prods for o in ops_
+                       if not centred(o)]
+                ok = not raw
+                ctx.ob("C03.5", f, ok,
+                       "the covariance is accumulated from *centred* points "
+                       "(y_i - mean_y)(x_i - mean_x)^T" if ok else
+                       f"the covariance multiplies uncentred data "
+                       f"({fmt(raw[0][1])[:60]}) and subtracts the product "
+                       f"of the means afterwards: for point sets with a "
+                       f"large common offset (UTM-like coordinates) this "
+                       f"cancels catastrophically and the rotation is wrong",
+                       key="C03.5:centred-covariance", cov=fmt(cov))
+
         # --------------------------------------------------------- C03.4
         def det_cond(c: T) -> bool:
             dets = [s for s in c.walk() if is_call_to(s, "numpy.linalg.det")]
@@ -188,6 +240,14 @@ VARIANTS = [
          find="    if np.linalg.det(u) * np.linalg.det(v) < 0.0:",
          replace="    if np.linalg.det(cov_xy) < 0.0:",
          expect="fire", rule="C03.4"),
+    dict(name="one-pass-covariance", file="evo/core/geometry.py",
+         find="    cov_xy = np.multiply(1.0 / n, outer_sum)",
+         replace="    cov_xy = 1.0 / n * y.dot(x.T) - np.outer(mean_y, mean_x)",
+         expect="fire", rule="C03.5"),
+    dict(name="vectorised-centred-covariance", file="evo/core/geometry.py",
+         find="    cov_xy = np.multiply(1.0 / n, outer_sum)",
+         replace="    cov_xy = 1.0 / n * (y - mean_y[:, np.newaxis]).dot((x - mean_x[:, np.newaxis]).T)",
+         expect="silent"),
     dict(name="det-of-product", file="evo/core/geometry.py",
          find="    if np.linalg.det(u) * np.linalg.det(v) < 0.0:",
          replace="    if np.linalg.det(u.dot(v)) < 0.0:", expect="silent"),
